@@ -286,11 +286,19 @@ def c18(prop, tier, t0):
 
 
 # ------------------------------------------------------------------ Engine B (controlled scheduler)
-def engb_run(prop, tier, harness, files, bound, extra_args=(), fakes=(), sysroot=False, mapall=(), access=(), budget="40s"):
+ENGB = {}  # harness -> build parameters (also used by setup.sh to pre-build)
+
+
+def engb_build(harness):
+    p = ENGB[harness]
+    rep = vlib.instrument(harness, p["files"], sysroot=p.get("sysroot", False), mapall=p.get("mapall", ()), access=p.get("access", ()))
+    ov = vlib.make_overlay(harness, extra=rep, fakes=p.get("fakes", ()))
+    return vlib.build(harness, tag=harness, overlay=ov)
+
+
+def engb_run(prop, tier, harness, bound, extra_args=(), budget="40s", shards=None):
     t_i = __import__("time").time()
-    rep = vlib.instrument(harness, files, sysroot=sysroot, mapall=mapall, access=access)
-    ov = vlib.make_overlay(harness, extra=rep, fakes=fakes)
-    binary, bt = vlib.build(harness, tag=harness, overlay=ov)
+    binary, bt = engb_build(harness)
     # engine self-test (channel-model conformance + known answers) is part of every Engine-B check
     st, _ = vlib.build("vschedtest")
     d = tempfile.mkdtemp(prefix="vres_", dir=vlib.BUILD)
@@ -306,7 +314,7 @@ def engb_run(prop, tier, harness, files, bound, extra_args=(), fakes=(), sysroot
     t_b = __import__("time").time()
     # one process per (scenario, shard): state-fingerprint pruning works best unsharded, so few shards per scenario
     names = [l.split(" ", 1) for l in vlib.run([binary, "-tier", tier, "-list"]).stdout.strip().splitlines() if l.strip()]
-    k = max(1, min(4, vlib.NCPU // max(1, len(names))))
+    k = shards or max(1, min(4, vlib.NCPU // max(1, len(names))))
     d = tempfile.mkdtemp(prefix="vres_", dir=vlib.BUILD)
     jobs = []
     for idx, _n in names:
@@ -342,14 +350,45 @@ ENGB_ASSUME = [
 ]
 
 
+ENGB["c15"] = dict(files=["internal/pkg/utils/fan.go", "internal/pkg/midi/process.go"])
+ENGB["c19"] = dict(files=["internal/pkg/midi/device/config/monitor.go"], fakes=("fsnotify",))
+
+
 @check("C15")
 def c15(prop, tier, t0):
     bound = 2 if tier == "quick" else 3
-    m, cov = engb_run(prop, tier, "c15", ["internal/pkg/utils/fan.go", "internal/pkg/midi/process.go"], bound,
-                      budget="40s" if tier == "quick" else "600s")
+    m, cov = engb_run(prop, tier, "c15", bound, budget="40s" if tier == "quick" else "600s")
     cov["explanation"] = ("real DynamicFanOut + ProcessMidiEvents under the controlled scheduler: R-out (2-3 emitters -> relay -> port), R-in/F (port -> relay -> fan-out -> always-attached device B and device A "
                           "attached/detached at arbitrary moments), F-stalled (A never reads), F-churn (two attachments); channel capacities 0/1/2; oracle on the totally ordered observation trace")
     return vlib.finish(prop, tier, "model_checking", m, cov, ENGB_ASSUME + [
         "channel capacities 0-2 instead of 8 so that blocking states are reachable within the bound; 2-4 messages, 2-3 emitters, one device attached/detached once or twice",
         "relay shutdown (context cancellation) is applied only after quiescence",
+    ], t0)
+
+
+@check("C19")
+def c19(prop, tier, t0):
+    bound = 2 if tier == "quick" else 3
+    m, cov = engb_run(prop, tier, "c19", bound, budget="45s" if tier == "quick" else "900s", shards=vlib.NCPU)
+    # conformance of the fake's event alphabet with the real fsnotify library + inotify, and an end-to-end run of the
+    # real (uninstrumented) DetectDeviceConfigChanges
+    conf, _ = vlib.build("c19conf")
+    base = tempfile.mkdtemp(prefix="verif_c19_")
+    d = tempfile.mkdtemp(prefix="vres_", dir=vlib.BUILD)
+    try:
+        res = os.path.join(d, "conf.json")
+        r = vlib.run_jobs([([conf, "-out", res, "-scratch", base], res)], timeout=900)[0]
+    finally:
+        _shutil.rmtree(base, ignore_errors=True)
+        _shutil.rmtree(d, ignore_errors=True)
+    m["violations"].extend(r.get("violations") or [])
+    for k2, v in (r.get("counters") or {}).items():
+        if not k2.startswith("violations:"):
+            cov["conformance_" + k2] = int(v)
+    cov["explanation"] = ("real DetectDeviceConfigChanges (instrumented) against a fake fsnotify: every sequence of <=2 (thorough 3) events over 10 kinds (writes to .toml / .TOML / other names incl. 'atoml' and 'toml', create, chmod, "
+                          "remove, rename) x prompt/late consumer x cancellation at an arbitrary moment, all interleavings up to the preemption bound; oracle: no notification without a preceding .toml write and never more than writes, "
+                          "a notification follows the last .toml write, the stream closes and all watcher threads end after shutdown. Separately the fake's alphabet is checked against the real library and kernel.")
+    return vlib.finish(prop, tier, "model_checking", m, cov, ENGB_ASSUME + [
+        "the kernel's and fsnotify's own goroutine schedules are outside the scheduler; the real library is only exercised by the conformance pass (sentinel-delimited event lists per file operation, no timing oracle)",
+        "consumers keep reading until the stream closes (a consumer that stops reading for good is outside the quantifier)",
     ], t0)
